@@ -79,7 +79,7 @@ type pathCtx struct {
 	mapOrder    bool   // fork on map iteration order
 	mapMode     int    // 0 canonical ascending, 1 descending, 2 rotated (SetMapOrder)
 	scratch     map[string]interface{}
-	panicObj    interface{}
+	panicLive   bool
 	panicStack  string
 }
 
